@@ -5,6 +5,12 @@ along the MRO, Limit parameters, flags, export settings, cfg overrides) on a rea
 histories with scripted recording drivers.  The datatype layer is an ORACLE for the Lean model: the real datatype
 methods are run here and their results are sent as tables; every decision is taken by the model / the monitors.
 The node generator and the node -> JSON canonicaliser are shared with C06 (props/c06.py imports them).
+
+Streams of one run (all judged by the Lean side): (1) sequential histories (`run_case`); (2) `run_concurrent`: a change racing
+a thread that moves the dynamic limit (lock discipline of the wrappers); (3) `run_merging`: 2-3 threads changing / polling /
+writing ONE struct parameter (the value given to the driver is the payload merged into the value cached at that moment);
+(4) `run_shared`: generated histories served to 2-3 connections at once (requests handled one at a time, sequential model
+in served order); (5) `run_wire`: generated histories as request lines through the real TCPRequestHandler.
 """
 import json
 import os
@@ -29,7 +35,8 @@ META = {
                   'change_exactly_validated (for datatypes of the C01 model the driver gets exactly acceptWire dt j (some current); '
                   'the idempotence assumption is discharged by C01 revalidate_unchanged). '
                   'The model is tied to dispatcher.py / modulebase.py / params.py by a correspondence run on the real '
-                  'dispatcher with recording drivers, and the Lean monitors judge every implementation exchange.',
+                  'dispatcher with recording drivers (sequentially, with 2-3 connections at once under a deterministic scheduler, and as '
+                  'request lines through the real TCPRequestHandler / handler.py), and the Lean monitors judge every implementation exchange.',
     'level_note': 'Trusted: Lean kernel + axioms; for the ten SECoP datatype kinds the value accepted from the wire is recomputed '
                   'by the C01 datatype model (acceptWire) in the Lean judge - change payloads against the cached value, command arguments, '
                   'and under concurrency against the value cached at the moment of the driver call - and the implementation must agree; export_value, '
@@ -1874,7 +1881,7 @@ def wire_run(case, chunking):
 
 
 def run_wire(ctx, res, big):
-    ncases = ctx.budget(60, 400)
+    ncases = ctx.budget(40, 400)
     reported = set()
     ndis = 0
     for _ in range(ncases):
@@ -1983,7 +1990,8 @@ def run(ctx):
                 'schedules (one evaluation = one schedule) of a change racing a limit move (non-trivial: the limit moved and '
                 'the driver was called), of 2-3 threads changing / polling / writing one struct parameter (non-trivial: a '
                 'request reached the driver, two threads stored or wrote, the value changed), and generated histories served '
-                'to 2-3 connections at once (one evaluation = one request; non-trivial: a driver call and two threads served)')
+                'to 2-3 connections at once (one evaluation = one request; non-trivial: a driver call and two threads served) '
+                'or sent as request lines through the real request loop (non-trivial: a driver call and an error report)')
     big = ctx.tier == 'thorough' or ctx.escalated
     rng = ctx.rng
     cases = []
